@@ -1804,6 +1804,7 @@ handle_define_directive(const string &args, const YYLTYPE &loc) {
       }
       result.first->second = manifest;
     }
+    VERIF_EVENT("{\"e\":\"Define\",\"text\":" << VERIF_Q(args) << "}");
   }
 }
 
@@ -1819,6 +1820,7 @@ handle_undef_directive(const string &args, const YYLTYPE &loc) {
     if (mi != _manifests.end()) {
       _manifests.erase(mi);
     }
+    VERIF_EVENT("{\"e\":\"Undef\",\"m\":" << VERIF_Q(args) << "}");
   }
 }
 
@@ -1987,6 +1989,7 @@ handle_pragma_directive(const string &args, const YYLTYPE &loc) {
     } else {
       _manifest_stack[macro].push_back(nullptr);
     }
+    VERIF_EVENT("{\"e\":\"Push\",\"m\":" << VERIF_Q(macro) << "}");
 
   } else if (sscanf(args.c_str(), "pop_macro ( \"%63[^\"]\" )", macro) == 1) {
     ManifestStack &stack = _manifest_stack[macro];
@@ -2007,6 +2010,7 @@ handle_pragma_directive(const string &args, const YYLTYPE &loc) {
     } else {
       warning("pop_macro without matching push_macro", loc);
     }
+    VERIF_EVENT("{\"e\":\"Pop\",\"m\":" << VERIF_Q(macro) << "}");
   }
 }
 
@@ -2547,6 +2551,9 @@ expand_manifest(const CPPManifest *manifest, const YYLTYPE &loc) {
   }
 
   string expanded = " " + manifest->expand(args, false, ignores) + " ";
+  for (size_t vi = 0; vi < args.size(); ++vi) VERIF_EVENT("{\"e\":\"ExpandArg\",\"text\":" << VERIF_Q(args[vi]) << "}");
+  for (const CPPManifest *vm : ignores) VERIF_EVENT("{\"e\":\"ExpandIgn\",\"m\":" << VERIF_Q(vm->_name) << "}");
+  VERIF_EVENT("{\"e\":\"Expand\",\"m\":" << VERIF_Q(manifest->_name) << ",\"fn\":" << (manifest->_has_parameters ? 1 : 0) << ",\"result\":" << VERIF_Q(expanded) << "}");
   push_expansion(expanded, manifest, loc);
 
 #ifdef CPP_VERBOSE_LEX
